@@ -200,6 +200,7 @@ func rlweCases() []copyCase {
 
 	// --- MemEvaluationKeySet.ShallowCopy: used through an evaluator
 	cases = append(cases, copyCase{name: "rlwe.MemEvaluationKeySet.ShallowCopy", envKind: "rlwe", kind: shallow, concurrent: true, configs: []string{"full", "norlk"},
+		sameObjectOK: true, // read-only key set: ShallowCopy returns the receiver by design ("thread-safe copy")
 		build: func(e *env, cfg string) interface{} {
 			if cfg == "norlk" {
 				var gks []*rlwe.GaloisKey
